@@ -75,6 +75,7 @@ class PlainPayload:
     raises_names: tuple
     ret: str = "wrapped"
     chain: str | None = None
+    deep: int = 0
 
     def raises(self):
         return tuple(EXC[n] for n in self.raises_names)
@@ -93,6 +94,7 @@ def _visual_payload_class():
         raises_names: tuple = ()
         ret: str = "wrapped"
         chain: str | None = None
+        deep: int = 0
 
         def raises(self):
             return tuple(EXC[n] for n in self.raises_names)
@@ -109,6 +111,10 @@ def _ensure_classes():
     global VisPayload
     if VisPayload is None:
         VisPayload = _visual_payload_class()
+
+
+def _recurse(d):
+    return 0 if d <= 0 else 1 + _recurse(d - 1)
 
 
 def _raise(exc_name, exc_args, chain):
@@ -139,6 +145,8 @@ def work(payload, *args, **kwargs):
         if p["behave"] == "ok":
             return p["value"] if p.get("ret") == "raw" else [p["value"], list(args), sorted(kwargs.items())]
         _raise(p["exc"], p["exc_args"], p.get("chain"))
+    if getattr(payload, "deep", 0):
+        _recurse(payload.deep)  # a recursive-descent job on deeply nested input
     if payload.behave == "ok":
         return payload.value if getattr(payload, "ret", None) == "raw" else [payload.value, list(args), sorted(kwargs.items())]
     _raise(payload.exc, payload.exc_args, getattr(payload, "chain", None))
@@ -186,6 +194,8 @@ def gen_spec(seed: int, config: str | None = None) -> dict:
              "exc": None, "exc_args": [], "raises": []}
         if rng.random() < 0.3:
             p["ret"] = "raw"  # the function returns the value itself (falsy outcomes such as 0, '', [] included)
+        if rng.random() < 0.04 and entry != "visual_legacy":
+            p["deep"] = rng.choice([1500, 3000])  # needs more than the default recursion limit
         if rng.random() < p_raise:
             p["behave"] = "raise"
             pool_ex = list(CAPTURABLE)
@@ -230,8 +240,11 @@ def gen_spec(seed: int, config: str | None = None) -> dict:
         "verbose": rng.random() < 0.3,
         "payloads": payloads,
         "faults": {"slow": sorted(rng.sample(range(n), k=min(n, rng.choice([0, 0, 1, 2])))) if n else []},
-        "knobs": {"tick_max": bug.choice([0, 1, 1, 2, 3, 8])},
+        "knobs": {"tick_max": bug.choice([0, 1, 1, 2, 3, 8]), "fresh_worker_state": bug.random() < 0.5},
     }
+    if rng.random() < 0.15:
+        # an earlier run in the same interpreter that its consumer stopped early through the stop handle of a Result
+        spec["earlier"] = {"n": rng.choice([2, 3, 5]), "stop_after": rng.choice([0, 1, 2]), "parallel": rng.random() < 0.7}
     if config == "uncaptured" and n:
         # at least one payload whose exception the loop is NOT asked to capture
         k = rng.randrange(n)
@@ -301,7 +314,7 @@ def build_payloads(spec: dict):
         path = Path(f"/sim/file{p['key']:02d}.txt")
         text = f"line {p['key']}\n// c\n\n"
         kw = dict(key=p["key"], behave=p["behave"], value=p["value"], exc=p["exc"],
-                  exc_args=tuple(p["exc_args"]), raises_names=tuple(p["raises"]), ret=p.get("ret", "wrapped"), chain=p.get("chain"))
+                  exc_args=tuple(p["exc_args"]), raises_names=tuple(p["raises"]), ret=p.get("ret", "wrapped"), chain=p.get("chain"), deep=p.get("deep", 0))
         if p["cls"] == "visual":
             out.append(VisPayload(path=path, payload=text, **kw))
         else:
@@ -327,7 +340,7 @@ class SimTime:
 
 class SimThreading:
     def Event(self):  # noqa: N802
-        return execseam.SimEvent("stop")
+        return execseam.new_event()
 
 
 @contextmanager
@@ -493,6 +506,35 @@ def fresh_modules():
     pp.parproc_visual = sys.modules["tatsu.parproc.visual"].__dict__["parproc_visual"]
 
 
+def run_earlier_call(spec, env, sim, Result):
+    """An earlier, unrelated parproc() run in the same interpreter, ended by its consumer through `result.stop.set()`
+    (the documented way to stop early) and then abandoned.  Nothing about it is judged; the run under test comes after it."""
+    import tatsu.parproc as pp
+
+    e = spec["earlier"]
+    _ensure_classes()
+    pls = [PlainPayload(path=Path(f"/sim/earlier{k}.txt"), payload="x\n", key=1000 + k, behave="ok", value=k, exc=None, exc_args=(), raises_names=())
+           for k in range(e["n"])]
+    gen = pp.parproc(work, pls, parallel=e["parallel"], max_workers=spec["max_workers"])
+    got = 0
+    try:
+        for r in gen:
+            env.tick("earlier")
+            got += 1
+            if got > e["stop_after"] and isinstance(r, Result):
+                r.stop.set()
+                sim.probe("earlier_run_stopped_by_consumer")
+                break
+    except execseam.Blocked:
+        pass
+    finally:
+        try:
+            gen.close()
+        except execseam.Blocked:
+            pass
+    sim.log("earlier-run", got)
+
+
 def run(spec: dict, decider: Decider, keep_events: bool = False) -> RunResult:
     fresh_modules()
     from tatsu.parproc.result import Result
@@ -512,8 +554,11 @@ def run(spec: dict, decider: Decider, keep_events: bool = False) -> RunResult:
     got: list[tuple] = []
     raised = None
     sink: list = []
+    env.fresh_worker_state = spec["knobs"].get("fresh_worker_state", False)
     try:
         with patched(env, spec, sim):
+            if spec.get("earlier"):
+                run_earlier_call(spec, env, sim, Result)
             gen = call_entry(spec, payloads, True, sink)
             try:
                 it = iter(gen)
@@ -679,6 +724,19 @@ def shrink_candidates(spec: dict):
         s = copy.deepcopy(spec)
         s["faults"]["slow"] = []
         yield s
+    if spec.get("earlier"):
+        s = copy.deepcopy(spec)
+        s.pop("earlier")
+        yield s
+    if spec["knobs"].get("fresh_worker_state"):
+        s = copy.deepcopy(spec)
+        s["knobs"]["fresh_worker_state"] = False
+        yield s
+    for i, p in enumerate(ps):
+        if p.get("deep"):
+            s = copy.deepcopy(spec)
+            s["payloads"][i].pop("deep")
+            yield s
     if spec["max_workers"] not in (None, 1):
         for mw in (1, spec["max_workers"] - 1):
             s = copy.deepcopy(spec)
@@ -699,7 +757,7 @@ def spec_size(spec: dict) -> int:
     n = len(canon(spec))
     n += 30 * (spec["entry"] != "parproc") + 30 * (spec["entry"] == "visual_legacy") + 30 * (spec["pool"] != "process") + 20 * bool(spec["pickle"])
     n += 20 * (spec["pickable"] != "identity") + 10 * bool(spec["summary"]) + 10 * bool(spec["verbose"])
-    n += 10 * spec["knobs"]["tick_max"] + 15 * (spec["max_workers"] or 0) + 5 * spec["cpu_count"]
+    n += 10 * spec["knobs"]["tick_max"] + 15 * (spec["max_workers"] or 0) + 5 * spec["cpu_count"] + 20 * bool(spec["knobs"].get("fresh_worker_state"))
     n += 10 * sum(1 for p in spec["payloads"] if p["cls"] == "visual")
     return n
 
